@@ -20,7 +20,9 @@ def grid(tier):
 def queries(tier, prop='C01'):
     ub = prop == 'C02'
     out = []
-    for (elt, cap) in grid(tier):
+    g = grid(tier)
+    if ub and tier == 'quick': g = [(0, 3), (2, 3)]
+    for (elt, cap) in g:
         esz = 8 if elt == 1 else 4
         for na in range(cap + 1):
             for nb in range(cap + 1):
